@@ -205,3 +205,7 @@ mod tests {
         assert_eq!(out, [0xF5, 4, 0, 8, 0, 0, 0, 0]);
     }
 }
+
+#[cfg(all(test, feature = "pendulum_project_ntpd_rs_verif"))]
+#[path = "../../../../../verif/harness/ntp_proto/packet_v5_extension_fields.rs"]
+mod verif_packet_v5_extension_fields;
